@@ -8,11 +8,12 @@ namespace Chalk.FixedPoint.Mix
 open Chalk.FixedPoint.Cyc (JE JA MinLe InCache InGraph Def Undef flagAt StackExt stackGoals
   getElem?_lt_length getElem?_prefix headNode mid_cases mid_at Rest Popped setCycle_length setCycle_getElem?_ne
   setCycle_getElem?_eq updateNode_mid take_mid afterRound finishGoal pushed cacheLookup inCache_iff_lookup
-  minGe_iff solveGoal_cached solveGoal_hit solveGoal_new lookup_some lookup_none stackExt_setCycle_true
-  solveNewSubgoal_step tick_none drain_ok)
+  minGe_iff solveGoal_cached solveGoal_hit solveGoal_new solveGoal_tick_panic lookup_some lookup_none
+  stackExt_setCycle_true solveNewSubgoal_step solveNewSubgoal_tick_panic solveNewSubgoal_iter_panic
+  tick_none drain_ok)
 
 section
-variable {inst : Instance} {P : Nat → Prop} {dom : List Nat} {lvl : Nat → Nat} {rec : SubSolver} {cfg : Cfg} {D : Nat}
+variable {inst : Instance} {P : Nat → Prop} {dom : List Nat} {lvl : Nat → Nat} {fx : Bool} {rec : SubSolver} {cfg : Cfg} {D : Nat}
 
 /-- the loop stops: with the optimistic provisional answer two rounds are left, or the provisional
     answer is already pessimistic and stable -/
@@ -21,21 +22,31 @@ def Rounds (inst : Instance) (P : Nat → Prop) (s0 : St) (g : Nat) (r : Nat) (s
   (1 ≤ r ∧ st.graph = s0.graph ++ [headNode s0 g (botOf inst g)] ∧
     ¬ JV inst (topOf inst g) (Opt inst P (InG inst P st) (topOf inst g)) g)
 
-theorem loop_tot (hyp : MHyp inst P dom lvl) (hb : cfg.budget = none) (hrec : SubSpec inst P dom lvl rec)
-    (htot : SubTot inst P dom lvl cfg D rec) {s0 : St} {g : Nat}
+theorem loop_good (hyp : MHyp inst P dom lvl) (h3 : cfg.fixF3 = true) (h16 : fx = true → cfg.fixF16 = true)
+    (hrec : SubSpec inst P dom lvl fx rec)
+    (hgood : SubGood inst P dom lvl fx cfg D rec) {s0 : St} {g : Nat}
     (hres : cfg.overflowDepth < D + (s0.stack.length + 1)) :
-    ∀ (r : Nat) (st : St), LoopSt inst P dom lvl s0 g st → Rounds inst P s0 g r st →
-      ∃ sub s3, solveNewSubgoal inst cfg rec g s0.stack.length s0.graph.length r st = .ok sub s3
+    ∀ (r : Nat) (st : St), LoopSt inst P dom lvl fx s0 g st → Rounds inst P s0 g r st →
+      Good P cfg (solveNewSubgoal inst cfg rec g s0.stack.length s0.graph.length r st)
   | 0, st, _, hr => by
     cases hr with
     | inl h => exact absurd h.1 (by omega)
     | inr h => exact absurd h.1 (by omega)
   | r + 1, st, L, hr => by
-    have ht := tick_none hb st
-    have L0 : LoopSt inst P dom lvl s0 g { st with work := st.work + 1 } := L.work _
-    obtain ⟨cur, m, s1, hi⟩ := solveIteration_tot hyp hrec htot g L.gdom none _ L0.inv L0.gtop
-      (by show cfg.overflowDepth < D + st.stack.length; rw [L.slen]; exact hres)
-    obtain ⟨i1, hs, _, hk, hf⟩ := solveIteration_sem hyp hrec g L.gdom none _ cur m s1 L0.inv L0.gtop hi
+    cases tick_cases cfg L.inv with
+    | inr hp =>
+      obtain ⟨st0, ht, h2⟩ := hp
+      exact Or.inr ⟨st0, solveNewSubgoal_tick_panic _ _ _ _ _ _ _ _ _ _ ht, h2⟩
+    | inl ht =>
+    have L0 : LoopSt inst P dom lvl fx s0 g { st with work := st.work + 1 } := L.work _
+    cases solveIteration_good hyp h16 hrec hgood g L.gdom none _ L0.inv L0.gtop
+      (by show cfg.overflowDepth < D + st.stack.length; rw [L.slen]; exact hres) with
+    | inr hp =>
+      obtain ⟨s1, hi, h2⟩ := hp
+      exact Or.inr ⟨s1, solveNewSubgoal_iter_panic _ _ _ _ _ _ _ _ _ _ _ ht hi, h2⟩
+    | inl hok =>
+    obtain ⟨⟨cur, m⟩, s1, hi⟩ := hok
+    obtain ⟨i1, hs, _, hk, hf⟩ := solveIteration_sem hyp h3 hrec g L.gdom none _ cur m s1 L0.inv L0.gtop hi
     obtain ⟨old, new, A⟩ := After.intro L0 i1 hs hf hk
     have hlt : s0.stack.length < s1.stack.length := by rw [A.slen]; exact Nat.lt_succ_self _
     have he : s1.stack[s0.stack.length]? = some s1.stack[s0.stack.length] := List.getElem?_eq_getElem hlt
@@ -49,11 +60,13 @@ theorem loop_tot (hyp : MHyp inst P dom lvl) (hb : cfg.budget = none) (hrec : Su
       · subst hoc
         have h1 : reachedFixedPoint old old = true := by simp [reachedFixedPoint]
         simp only [h1, if_true]
-        exact ⟨_, _, rfl⟩
-      · have hamb : cur ≠ .ambig := by
-          cases A.cur_val with
-          | inl e => rw [e]; exact topOf_ne_ambig inst g
-          | inr e => rw [e]; exact botOf_ne_ambig inst g
+        exact Or.inl ⟨_, _, rfl⟩
+      · by_cases hamb : cur = .ambig
+        · -- interrupted: the loop stops
+          subst hamb
+          have h1 : reachedFixedPoint old .ambig = true := by simp [reachedFixedPoint]
+          simp only [h1, if_true]
+          exact Or.inl ⟨_, _, rfl⟩
         have h1 : reachedFixedPoint old cur = false := by simp [reachedFixedPoint, hoc, hamb]
         simp only [h1, Bool.false_eq_true, if_false]
         have hgr : updateNode (fun n => { n with solution := cur }) s0.graph.length s1.graph =
@@ -64,7 +77,7 @@ theorem loop_tot (hyp : MHyp inst P dom lvl) (hb : cfg.budget = none) (hrec : Su
           show (updateNode _ s0.graph.length s1.graph).take (s0.graph.length + 1) = _
           rw [hgr, take_mid]
           rfl
-        have L2 : LoopSt inst P dom lvl s0 g
+        have L2 : LoopSt inst P dom lvl fx s0 g
             (rollbackTo (s0.graph.length + 1) (afterRound s0.stack.length s0.graph.length cur s1)) :=
           A.restart ⟨rfl, rfl, rfl, rfl⟩ rfl hg2
         -- the provisional answer was optimistic, the outcome is pessimistic
@@ -78,83 +91,92 @@ theorem loop_tot (hyp : MHyp inst P dom lvl) (hb : cfg.budget = none) (hrec : Su
             exfalso
             have := List.append_cancel_left (A.gt.symm.trans h.2.1)
             simp only [headNode, List.cons.injEq, Node.mk.injEq, and_true, true_and] at this
-            cases A.cur_val with
-            | inl e => exact h.2.2 (A.top_inG e)
-            | inr e => exact hoc (this.trans e.symm)
+            rcases A.cur_val with e | e | e
+            · exact h.2.2 (A.top_inG e)
+            · exact hoc (this.trans e.symm)
+            · exact hamb e
         have hcur : cur = botOf inst g := by
-          cases A.cur_val with
-          | inl e => exact absurd (hold.1.trans e.symm) hoc
-          | inr e => exact e
-        refine loop_tot hyp hb hrec htot hres r _ L2 (Or.inr ⟨hold.2, by rw [hg2, hcur], ?_⟩)
+          rcases A.cur_val with e | e | e
+          · exact absurd (hold.1.trans e.symm) hoc
+          · exact e
+          · exact absurd e hamb
+        refine loop_good hyp h3 h16 hrec hgood hres r _ L2 (Or.inr ⟨hold.2, by rw [hg2, hcur], ?_⟩)
         intro hj
         exact A.fact.not_opt hcur (JV.mono (fun j hj => hj.mono (fun k hk => A.restart_sub
               (s2 := rollbackTo (s0.graph.length + 1) (afterRound s0.stack.length s0.graph.length cur s1))
               hcur ⟨rfl, rfl, rfl, rfl⟩ hg2 k hk)) hj)
     · have hc' : e.cycle = false := by cases h' : e.cycle <;> simp_all
       simp only [hc', Bool.not_false, if_true]
-      exact ⟨_, _, rfl⟩
+      exact Or.inl ⟨_, _, rfl⟩
 
 theorem finishGoal_tot {s0 : St} {g : Nat} {sub : Min} {s3 : St}
-    (hp : LoopPost inst P dom lvl s0 g sub s3) (m : Min) :
+    (hp : LoopPost inst P dom lvl fx s0 g sub s3) (m : Min) :
     ∃ v m' s', finishGoal cfg m s0.stack.length s0.graph.length sub s3 = .ok (v, m') s' := by
-  obtain ⟨st', s1, old, cur, new, A, hfl, hg3, hlen3, hget3, R3⟩ := hp
+  obtain ⟨st', s1, old, cur, new, new3, A, hcase, hg3, hlen3, hget3, R3⟩ := hp
   have hg4 : updateNode (fun n => { n with links := sub, stackDepth := none }) s0.graph.length s3.graph =
-      s0.graph ++ (⟨g, cur, none, sub⟩ : Node) :: new := by
+      s0.graph ++ (⟨g, cur, none, sub⟩ : Node) :: new3 := by
     rw [hg3, updateNode_mid]
   have hpop : s0.stack.length + 1 = s3.stack.length := hlen3.symm
   simp only [finishGoal, pop, hpop, if_true, hg4, mid_at]
   by_cases hge : Min.ge sub s0.graph.length = true
-  · cases hc1 : s1.cache with
+  · cases hc3 : s3.cache with
     | none =>
-      have hc3 : s3.cache = none := by rw [R3.cache]; exact hc1
-      simp only [hge, if_true, hc3]
+      simp only [hge, if_true]
       exact ⟨_, _, _, rfl⟩
     | some cc1 =>
-    have hint : s3.interrupted = false := by rw [R3.interrupted]; exact A.i1.quiet.2.2
-    have hc3 : s3.cache = some cc1 := by rw [R3.cache]; exact hc1
-    have hand : (cfg.fixF3 && s3.interrupted) = false := by rw [hint]; simp
-    simp only [hge, if_true, hc3, hand, Bool.false_eq_true, if_false, moveToCache,
-      List.drop_left, List.take_left]
-    obtain ⟨cc6, hdr⟩ := drain_ok s0.graph.length ((⟨g, cur, none, sub⟩ : Node) :: new) cc1 (by
-      intro n hn
-      cases List.mem_cons.mp hn with
-      | inl e => rw [e]; exact ⟨rfl, hge⟩
-      | inr e =>
-        exact ⟨(A.hnew n e).1, (minGe_iff _ _).mpr (((minGe_iff _ _).mp hge).trans (A.hnew n e).2)⟩)
-    rw [hdr]
-    exact ⟨_, _, _, rfl⟩
+      by_cases hand : (cfg.fixF3 && s3.interrupted) = true
+      · simp only [hge, if_true, hand]
+        exact ⟨_, _, _, rfl⟩
+      · simp only [hge, if_true, hand, Bool.false_eq_true, if_false, moveToCache,
+          List.drop_left, List.take_left]
+        obtain ⟨cc6, hdr⟩ := drain_ok s0.graph.length ((⟨g, cur, none, sub⟩ : Node) :: new3) cc1 (by
+          intro n hn
+          cases List.mem_cons.mp hn with
+          | inl e => rw [e]; exact ⟨rfl, hge⟩
+          | inr e =>
+            cases hcase with
+            | inl h1 =>
+              rw [h1.1] at e
+              exact ⟨(A.hnew n e).1, (minGe_iff _ _).mpr (((minGe_iff _ _).mp hge).trans (A.hnew n e).2)⟩
+            | inr h1 => rw [h1.1] at e; cases e)
+        rw [hdr]
+        exact ⟨_, _, _, rfl⟩
   · simp only [hge, Bool.false_eq_true, if_false]
     exact ⟨_, _, _, rfl⟩
 
-/-- TOTALITY of `solve_goal`: no assert of the framework fires, no cycle is judged mixed, the stack
-    does not overflow, the loop stops within two rounds -/
-theorem solveGoal_tot (hyp : MHyp inst P dom lvl) (hb : cfg.budget = none)
-    (hov : dom.length ≤ cfg.overflowDepth) (hr : 2 ≤ cfg.rounds) :
-    ∀ d, SubTot inst P dom lvl cfg d (solveGoal inst cfg d)
+/-- `solve_goal` returns, or ends in the budget panic with a correct cache: no assert of the
+    framework fires, no cycle is judged mixed, the stack does not overflow, the loop stops within two rounds -/
+theorem solveGoal_good (hyp : MHyp inst P dom lvl) (h3 : cfg.fixF3 = true) (h10 : fx = true → cfg.fixF10 = true)
+    (h16 : fx = true → cfg.fixF16 = true) (hov : dom.length ≤ cfg.overflowDepth) (hr : 2 ≤ cfg.rounds) :
+    ∀ d, SubGood inst P dom lvl fx cfg d (solveGoal inst cfg d)
   | 0 => by
     intro g m s hi _ _ hres
     have := hi.stack_le
     omega
   | d + 1 => by
     intro g m s hi hg hbel hres
-    have ht := tick_none hb s
-    have i0 : Inv inst P dom lvl { s with work := s.work + 1 } := hi.work _
+    cases tick_cases cfg hi with
+    | inr hp =>
+      obtain ⟨s0, ht, h2⟩ := hp
+      exact Or.inr ⟨s0, solveGoal_tick_panic _ _ _ _ _ _ _ _ ht, h2⟩
+    | inl ht =>
+    have i0 : Inv inst P dom lvl fx { s with work := s.work + 1 } := hi.work _
     cases hc : cacheLookup ({ s with work := s.work + 1 } : St) g with
-    | some w => exact ⟨_, _, _, solveGoal_cached inst cfg d g m s _ w ht hc⟩
+    | some w => exact Or.inl ⟨_, _, solveGoal_cached inst cfg d g m s _ w ht hc⟩
     | none =>
       cases hl : lookup ({ s with work := s.work + 1 } : St).graph g with
       | some dfn =>
         obtain ⟨node, hn, hgo⟩ := lookup_some hl
         rw [solveGoal_hit inst cfg d g m s _ ht hc dfn hl node hn]
         cases hsd : node.stackDepth with
-        | none => exact ⟨_, _, _, rfl⟩
+        | none => exact Or.inl ⟨_, _, rfl⟩
         | some depth =>
           obtain ⟨hdl, _⟩ := i0.stk dfn node depth hn hsd
           have hnle : ¬ ({ s with work := s.work + 1 } : St).stack.length ≤ depth := Nat.not_le.mpr hdl
           have hmix : mixedFrom (setCycle true depth ({ s with work := s.work + 1 } : St).stack) depth = false :=
             hit_not_mixed i0 hbel hn hgo hsd
           simp only [hnle, if_false, hmix, Bool.false_eq_true]
-          exact ⟨_, _, _, rfl⟩
+          exact Or.inl ⟨_, _, rfl⟩
       | none =>
         have hu : Undef ({ s with work := s.work + 1 } : St) g := by
           intro w hw
@@ -170,14 +192,30 @@ theorem solveGoal_tot (hyp : MHyp inst P dom lvl) (hb : cfg.budget = none)
           show ¬ cfg.overflowDepth ≤ s.stack.length
           omega
         rw [solveGoal_new inst cfg d g m s _ ht hc hl hnov]
-        have hspec := solveGoal_sem (cfg := cfg) hyp d
+        have hspec := solveGoal_sem (cfg := cfg) hyp h3 h10 d
         have L := push_loopSt hyp i0 hu hg hbel
-        obtain ⟨sub, s3, hloop⟩ := loop_tot hyp hb hspec (solveGoal_tot hyp hb hov hr d)
+        cases loop_good hyp h3 h16 hspec (solveGoal_good hyp h3 h10 h16 hov hr d)
           (s0 := { s with work := s.work + 1 }) (g := g)
           (by show cfg.overflowDepth < d + (s.stack.length + 1); omega) cfg.rounds _ L
-          (Or.inl ⟨hr, by simp only [pushed, headNode, topOf]⟩)
-        rw [hloop]
-        exact finishGoal_tot (loop_sem hyp hspec cfg.rounds _ sub s3 L hloop) m
+          (Or.inl ⟨hr, by simp only [pushed, headNode, topOf]⟩) with
+        | inr hp =>
+          obtain ⟨s3, hloop, h2⟩ := hp
+          rw [hloop]
+          exact Or.inr ⟨s3, rfl, h2⟩
+        | inl hok =>
+          obtain ⟨sub, s3, hloop⟩ := hok
+          rw [hloop]
+          obtain ⟨v, m', s', h⟩ := finishGoal_tot (loop_sem hyp h3 h10 hspec cfg.rounds _ sub s3 L hloop) m
+          exact Or.inl ⟨(v, m'), s', h⟩
+
+/-- TOTALITY of `solve_goal` without a work budget -/
+theorem solveGoal_tot (hyp : MHyp inst P dom lvl) (h3 : cfg.fixF3 = true) (h10 : fx = true → cfg.fixF10 = true)
+    (h16 : fx = true → cfg.fixF16 = true) (hb : cfg.budget = none)
+    (hov : dom.length ≤ cfg.overflowDepth) (hr : 2 ≤ cfg.rounds) :
+    ∀ d, SubTot inst P dom lvl fx cfg d (solveGoal inst cfg d) := by
+  intro d g m s hi hg hbel hres
+  obtain ⟨⟨v, m'⟩, s', h⟩ := (solveGoal_good hyp h3 h10 h16 hov hr d g m s hi hg hbel hres).of_none hb
+  exact ⟨v, m', s', h⟩
 
 end
 
